@@ -53,6 +53,9 @@ RetimeSkipOK(m1, m2) == Ck("RetimeSkipOnlyWhenLess", SLt(Total(m2), Total(m1)) \
 ChargedOK(b2, f2, cb, cf) == Ck("AdjustedIsCharged", Len(b2) = Len(cb) /\ Len(f2) = Len(cf) /\
                                  \A i \in 1..Len(b2) : Eq(cb[i], b2[i]) /\ Eq(cf[i], f2[i]))
 
+(* the harvest is an input of the run: every round is given the same monthly series *)
+HarvestOK(c1, c) == Ck("HarvestSameEveryRound", Len(c1) = Len(c) /\ \A i \in 1..Len(c) : Eq(c1[i], c[i]))
+
 (* Bump: biofuel b, feed f, demand ceilings maxB, maxF (monthly series); b2, f2 the adjusted series; dom: b <= maxB and f <= maxF held *)
 BumpOK(b, f, maxB, maxF, b2, f2, dom) ==
   /\ Ck("BumpNeverLowers", \A i \in 1..Len(b) : Le(b[i], b2[i]) /\ Le(f[i], f2[i]))
